@@ -239,8 +239,13 @@ class ConvexHull:
             conds.append(sym_or([E[f, j] != 0 for j in range(dim)]))
             for i in range(npts):
                 conds.append(_sumlist([E[f, j] * P[i, j] for j in range(dim)]) + E[f, dim] <= 0)
+        if sink is not None and sink.hints.get("hull_origin_interior"):
+            # contract consequence: the origin is an interior point of conv(P) => every facet offset is negative
+            conds.extend(E[f, dim] < 0 for f in range(nfac))
         CTX.add(sym_and(conds).z, "axiom")
         self.equations = E.view(SymArray)
+        if sink is not None:
+            sink.hulls = getattr(sink, "hulls", []) + [self]
         self._vertices = sink.hints.get("hull_vertices") if sink is not None else None
         key = tuple(SymReal.lift(e).z.get_id() for e in P.ravel().tolist())
         if key not in _VOLUME_CACHE:
